@@ -179,7 +179,7 @@ fn static_array_probe(n: usize) -> Option<Data<'static>> {
 /// Is this an SND operation with a page literal that Page::from_bytes refuses?
 pub fn snd_unconstructible(op: &str) -> bool {
     let p: Vec<&str> = op.splitn(3, '.').collect();
-    (p[0] == "SND" || p[0] == "SNP" || p[0] == "SNW" || p[0] == "SNL" || p[0] == "SNQ") && guarded(|| try_pages_of_str(p[2]).is_none()).unwrap_or(true)
+    (p[0] == "SND" || p[0] == "SNP" || p[0] == "SNW" || p[0] == "SNL" || p[0] == "SNQ" || p[0] == "SNF") && guarded(|| try_pages_of_str(p[2]).is_none()).unwrap_or(true)
 }
 
 thread_local! {
@@ -240,6 +240,18 @@ pub fn run_cop_on(sign: &Sign, op: &str) -> Option<Result<String, SignError>> {
                     let _look = b.borrow();
                 }
             });
+            guarded(|| sign.send_pages(it).map(|s| format!(".{}", str_style(s))))
+        }
+        "SNF" => {
+            // the pages picked out of a larger collection by a filter (every other element of a list twice as long; the
+            // elements dropped are pages of another size): the iterator's upper size bound is not attained
+            let pages = pages_of_str(p[2]);
+            let mut all: Vec<Page<'static>> = vec![];
+            for (i, pg) in pages.iter().enumerate() {
+                all.push(pg.clone());
+                all.push(Page::new(PageId(i as u8), 3, 3));
+            }
+            let it = all.iter().enumerate().filter(|(i, _)| i % 2 == 0).map(|(_, pg)| pg);
             guarded(|| sign.send_pages(it).map(|s| format!(".{}", str_style(s))))
         }
         "SNQ" => {
